@@ -28,8 +28,9 @@ def WT : Op → List CVal → Prop
   | .extract hi lo, vs => ∃ w x, lo ≤ hi ∧ hi < w ∧ vs = [.bv x w]
   | .zeroExt _, vs | .signExt _, vs => ∃ w x, 0 < w ∧ vs = [.bv x w]
   | .concat, vs => ∀ v ∈ vs, ∃ x w, v = .bv x w
-  | .ite, vs => ∃ c t f, vs = [.bool c, t, f]
-  | .and, vs | .or, vs => ∀ v ∈ vs, ∃ b, v = .bool b
+  | .ite, vs => ∃ c t f, vs = [.bool c, t, f] ∧
+      ((∃ x y w, t = .bv x w ∧ f = .bv y w) ∨ (∃ a b, t = .bool a ∧ f = .bool b))
+  | .and, vs | .or, vs => vs ≠ [] ∧ ∀ v ∈ vs, ∃ b, v = .bool b
   | .not, vs => ∃ b, vs = [.bool b]
 
 /-- the outcomes the property allows -/
@@ -179,13 +180,13 @@ theorem C04_fold_documented (op : Op) (vs : List CVal) (h : WT op vs) : Document
     · simp [Documented]
     · contradiction
   case ite =>
-    obtain ⟨c, t, f, rfl⟩ := h
+    obtain ⟨c, t, f, rfl, _⟩ := h
     simp [foldOp, Documented]
   case and =>
-    obtain ⟨r, hr⟩ := boolAll_ok vs h
+    obtain ⟨r, hr⟩ := boolAll_ok vs h.2
     simp [foldOp, hr, Documented]
   case or =>
-    obtain ⟨r, hr⟩ := boolAny_ok vs h
+    obtain ⟨r, hr⟩ := boolAny_ok vs h.2
     simp [foldOp, hr, Documented]
   case not =>
     obtain ⟨b, rfl⟩ := h
